@@ -133,9 +133,12 @@ def materialise(man, units, tag, rnd_dir, layout="sep"):
 
 
 # (program, extra arguments, group name, maximal number of units of the configurations run in this group)
-# thorough: every group runs every configuration in both alignment-file layouts; quick: the groups named in
-# QUICK_BOTH_LAYOUTS do (every model pair is still replayed by these), the others run the one-file-per-sample layout
-QUICK_BOTH_LAYOUTS = ("call-exact", "assemble")
+# Every group runs every configuration (up to its maximal number of units) in the one-file-per-sample layout, and the
+# configurations of at most BOTH_LAYOUTS[tier][group] units also in the multi-sample-file layout: in each tier one
+# call-exact group replays every model pair in both layouts; quick adds every single unit (= every pool) with assemble,
+# thorough every configuration of at most two units with every group.
+BOTH_LAYOUTS = {"quick": {"call-exact": 2, "assemble": 1},
+                "thorough": {"call-exact-filter": 3, None: 2}}
 # G-length fields (GP / GL) only in the groups restricted to <= 2 units (a pool of three diploids with six
 # alleles has 462 genotypes per column)
 GROUPS_QUICK = [
@@ -224,9 +227,13 @@ def main():
     tier = ck.tier
     ck.rule = (
         "TLC enumerates every pair of run configurations (A, B) with units(A) a subset of units(B) over 3 base samples "
-        "(all sub-sequences and orders, pools incl. a sample in two pools, pool vs physically merged sample) and checks the "
+        "(all sub-sequences and orders, pools incl. a sample in two pools, pool vs physically merged sample, base samples "
+        "stored one per alignment file or all in one multi-sample file) and checks the "
         "relations on the modelled data flow; every configuration it enumerates is executed for real with call, call-exact and "
-        "assemble, and TLC evaluates the predicted relations on every ordered pair of logged runs. evaluations = ordered pairs "
+        "assemble, and TLC evaluates the predicted relations on every ordered pair of logged runs. The same clauses decide the "
+        "run log of the wide regime (70 diploid samples with private haplotypes over 8 SNVs, thorough also 140 over 9: joint "
+        "runs listing more than 127 / 255 ALT alleles, against every sample alone, a small run, the reverse BAM order and one "
+        "multi-sample file). evaluations = ordered pairs "
         "of real runs given a verdict; non-trivial = pairs for which the model predicts at least one relation (different "
         "configurations sharing a unit)."
     )
@@ -237,8 +244,9 @@ def main():
             ck.violation("model", {"invariant": r.violated, "text": r.error_text[:1500]}, key={"model": "SampleFlow"})
         pairs = r.printed
         killed = 0
-        for mc, inv in MUTANTS:
-            m = tlc.run(SPEC, "SampleFlow", mc)
+        with cf.ThreadPoolExecutor(max_workers=max(1, min(env.NCPU // 2, len(MUTANTS)))) as ex:
+            mres = list(ex.map(lambda mc: tlc.run(SPEC, "SampleFlow", mc[0], workers=max(2, env.NCPU // len(MUTANTS))), MUTANTS))
+        for (mc, inv), m in zip(MUTANTS, mres):
             if m.violated is None or (inv and m.violated not in inv):
                 ck.machinery_failure("mutant spec %s not killed (%s)" % (mc, m.violated))
             killed += 1
@@ -272,7 +280,7 @@ def main():
             for ckey in sorted(configs):
                 layout, key = ckey
                 units = configs[ckey]
-                if len(units) > maxlen or (tier == "quick" and layout != "sep" and gname not in QUICK_BOTH_LAYOUTS):
+                if len(units) > maxlen or (layout != "sep" and len(units) > BOTH_LAYOUTS[tier].get(gname, BOTH_LAYOUTS[tier].get(None, 0))):
                     continue
                 argv, names, ploidy, inbfile = materialise(man, units, "%s-%s-%s" % (man["name"], layout, "_".join(key)), cfgdir,
                                                            layout)
@@ -497,8 +505,12 @@ def main():
         "F (reads, ploidy, inbreeding, rng -> posterior) is uninterpreted in the model: a column is equal iff everything it may depend on is equal",
         "exhaustive over run configurations of 3 base samples with at most MaxLen units (quick 2, thorough 3); datasets are bounded "
         "(5 loci, diploid base samples, pool ploidy = 2 x members)",
-        "pool vs physically merged sample: numeric fields are compared with one unit of the last printed place (the order in which "
-        "identical reads are accumulated differs between the two inputs)",
+        "pool vs physically merged sample, and the same unit read from differently laid out alignment files: numeric fields are "
+        "compared with one unit of the last printed place (the order in which identical reads are accumulated differs between "
+        "the two inputs); integer fields (DP, RCOUNT, RCALLS, ...) and, in call / call-exact, the genotypes must be identical",
+        "the multi-sample-file layout is run for every configuration with one call-exact group and, quick: for every single unit "
+        "with assemble, thorough: for every configuration of at most two units with every group; the wide regime is decided by the trace clauses, the model states "
+        "its law (allele numbers are unbounded) on three samples",
     ]
     ck.finish()
 
